@@ -81,8 +81,16 @@ CharsNext == /\ (IF stack = <<>> THEN TRUE ELSE Len(stack[1]) < MaxBin)
              /\ UNCHANGED <<nbin, nun>>
 CharsDone == Len(stack) = 1
 
+(* ---- soup mode: every sequence of at most MaxBin lexemes from Lits, separated by blanks; nbin counts ---- *)
+SoupNext == /\ nbin < MaxBin
+            /\ \E c \in Lits : stack' = <<(IF stack = <<>> THEN c ELSE stack[1] \o SP \o c)>>
+            /\ nbin' = nbin + 1 /\ UNCHANGED nun
+SoupDone == Len(stack) = 1
+
 Next == CASE Mode = "tree" -> TreeNext [] Mode = "flat" -> FlatNext [] Mode = "chars" -> CharsNext
+          [] Mode = "soup" -> SoupNext
 Spec == Init /\ [][Next]_<<stack, nbin, nun>>
 
-Emit == ((Mode = "tree" /\ TreeDone) \/ (Mode = "flat" /\ FlatDone) \/ (Mode = "chars" /\ CharsDone)) => PrintT(<<"CASE", ToJson(stack[1])>>)   \* ToJson: one line per case (TLC wraps long tuples)
+Emit == ((Mode = "tree" /\ TreeDone) \/ (Mode = "flat" /\ FlatDone) \/ (Mode = "chars" /\ CharsDone)
+         \/ (Mode = "soup" /\ SoupDone)) => PrintT(<<"CASE", ToJson(stack[1])>>)   \* ToJson: one line per case (TLC wraps long tuples)
 =============================================================================
